@@ -14,7 +14,8 @@ from vpc.core import REPO, cN, cbool, clist, copt
 IMPORTS = "Require Import V.model.GetRecord."
 THEOREMS = [
     "constants_consistent", "one_outcome_per_caller", "terminating_event_ends_wait",
-    "dedup_order_irrelevant", "ok_is_a_reply", "ok_needs_quorum", "ok_under_query_cfg",
+    "dedup_order_irrelevant", "outcomes_independent_of_expected_holders",
+    "step_independent_of_expected_holders", "ok_is_a_reply", "ok_needs_quorum", "ok_under_query_cfg",
     "below_quorum", "finished_never_ok_unchecked", "timeout_never_ok",
     "split_returns_all_versions", "split_is_complete", "merged_is_transaction_union", "merged_covers_all",
     "merge_perm_invariant", "split_tx_is_union", "split_reg_is_union", "split_pad_is_max",
@@ -24,7 +25,8 @@ THEOREMS = [
 ]
 RULE = ("histories of 2-14 events on a real client-mode SwarmDriver: 1-4 callers (raw oneshot callers and real "
         "get_record_from_network futures) on 1-2 keys with equal/different quorum (One, Majority, All, N(1..7), "
-        "N(huge)) / target / is_register settings, 0-8 responders incl. the local peer (None and Some(self)), 1-4 "
+        "N(huge)) / target / is_register / expected_holders settings (empty, subset / superset of / disjoint from the "
+        "responders, the local peer; fewer, as many and more holders than the quorum; holders answering first or last), 0-8 responders incl. the local peer (None and Some(self)), 1-4 "
         "content versions (chunks, transactions, registers, scratchpads, unparsable headers, payment kinds; same "
         "content under different key/publisher), duplicated replies, every terminating event (finished, not found, "
         "quorum failed, timeout), events for completed queries, dropped receivers; thorough: all arrival orders of "
@@ -37,7 +39,7 @@ ASSUMPTIONS = [
     "(header kind, typed payload) terms, mapped injectively to real encodings by the harness)",
     "signatures are the booleans returned by the real SignedRegister::verify / Scratchpad::is_valid on records built "
     "with real BLS keys (C06/C07 own what those verifiers accept)",
-    "Record::expires is None in every generated record; GetRecordCfg::expected_holders (logging only) is not modelled",
+    "Record::expires is None in every generated record",
     "the never-polled kad behaviour assigns fresh QueryIds (libp2p) and does not act on the queries",
     "the byte order of a transaction merge built from a HashSet (lib.rs) is compared as a set",
 ]
@@ -131,7 +133,8 @@ def g_cfg(c):
         if r is None:
             return None
         t = "(Some %s)" % r
-    return "(Build_cfg %s %s %s)" % (g_quorum(c["q"]), t, cbool(c.get("isreg", False)))
+    hs = c.get("holders") or []
+    return "(Build_cfg %s %s %s %s)" % (g_quorum(c["q"]), t, cbool(c.get("isreg", False)), clist([cN(h) for h in hs]))
 
 
 def g_versions(vs):
@@ -204,8 +207,11 @@ def g_dump(d):
         if r is None:
             return None
         t = "(Some %s)" % r
-    return "(%s, %s, %s, %s, %s, %s, %s)" % (cN(d["q"]), cN(d["key"]), cN(d["senders"]), vs,
-                                           g_quorum(d["quorum"]), t, cbool(d["isreg"]))
+    if any(h < 0 for h in d["holders"]):
+        return None
+    return "(%s, %s, %s, %s, %s, %s, %s, %s)" % (cN(d["q"]), cN(d["key"]), cN(d["senders"]), vs,
+                                               g_quorum(d["quorum"]), t, cbool(d["isreg"]),
+                                               clist([cN(h) for h in d["holders"]]))
 
 
 RET = {"ok": "ROk", "dropped": "RDropped", "chan": "RChan"}
@@ -638,6 +644,56 @@ def gen_quorum(rng):
     return ["n", rng.choice([2 ** 32, 2 ** 63, 2 ** 64 - 1])]
 
 
+def gen_holders(rng, q):
+    """expected_holders: empty / a subset of the peers that usually reply (1..4) / a superset of all
+    repliers / disjoint from them (20..30 never reply) / the local peer; sizes below, at and above the quorum"""
+    r = rng.random()
+    if r < 0.4:
+        return []
+    qv = quorum_value(q, 5)
+    qv = qv if qv <= 8 else 2
+    size = max(1, min(8, rng.choice([1, 1, 2, qv - 1, qv, qv + 1])))
+    mode = rng.choice(["subset", "subset", "subset", "disjoint", "superset", "self"])
+    if mode == "subset":
+        return sorted(rng.sample(range(1, 6), min(size, 5)))
+    if mode == "disjoint":
+        return sorted(rng.sample(range(20, 31), size))
+    if mode == "superset":
+        return list(range(1, 9)) + sorted(rng.sample(range(20, 31), rng.choice([0, 2])))
+    return [0] + sorted(rng.sample(range(1, 5), min(size - 1, 4)))
+
+
+def gen_holders_hist(rng):
+    """directed: Quorum::N(q), k expected holders (k below / at / above q), identical replies; the holders
+    answer first or last; fewer or more replies than the quorum; any terminator.  All expected holders having
+    answered must never complete a read below the quorum."""
+    q = rng.choice([2, 3, 3, 4, 5])
+    quorum = rng.choice([["n", q], ["n", q], ["maj"], ["all"]])
+    qv = quorum_value(quorum, 5)
+    k = max(1, rng.choice([1, 1, qv - 1, qv, qv + 1]))
+    peers = list(range(1, 9))
+    rng.shuffle(peers)
+    holders = peers[:min(k, 8)]
+    others = peers[len(holders):]
+    nrep = rng.choice([1, len(holders), max(1, qv - 1), qv, qv + 1])
+    first = rng.random() < 0.6
+    order = (holders + others) if first else (others + holders)
+    if rng.random() < 0.3:
+        order = order[:1] + order                      # a duplicated reply
+    c = rng.choice([c_raw(1), c_reg(0, [1, 2]), c_tx([1]), c_pad(True, 2, 1)])
+    key = rng.randrange(1, 6)
+    target = rec(key, c) if rng.random() < 0.3 else None
+    evs = [{"e": "cmd", "key": key, "cfg": cfg(quorum, target, holders=sorted(holders)), "api": rng.random() < 0.15}]
+    if rng.random() < 0.3:
+        evs.append({"e": "cmd", "key": key, "cfg": cfg(quorum, target, holders=sorted(rng.sample(range(1, 9), 2)))})
+    for p in order[:nrep]:
+        evs.append({"e": "found", "q": 0, "peer": p, "rec": rec(key, c), "step": rng.choice([1, 2, 6])})
+    t = rng.choice(["finished", "timeout", "notfound", None, None])
+    if t:
+        evs.append({"e": t, "q": 0, "key": key})
+    return {"kind": "hist", "events": evs}
+
+
 def gen_hist(rng, deep=False):
     pool = content_pool(rng)
     nkeys = rng.choice([1, 1, 1, 2])
@@ -658,8 +714,7 @@ def gen_hist(rng, deep=False):
             c = rng.choice(pool)
             t = rec(rng.choice(keys), c, pub=rng.choice([None, None, None, 2]))
             isreg = rng.random() < (0.6 if c["p"][0] == "reg" else 0.1)
-        hold = rng.sample(range(1, 9), rng.choice([0, 0, 2]))
-        return cfg(q, t, isreg, holders=hold)
+        return cfg(q, t, isreg, holders=gen_holders(rng, q))
 
     def cmd(api=False):
         nonlocal base_cfg, ncmd
@@ -780,7 +835,7 @@ def gen(ctx):
     for q in (["one"], ["maj"], ["all"], ["n", 1], ["n", 2], ["n", 7], ["n", 2 ** 64 - 1]):
         cases.append({"kind": "quorum", "q": q})
     for _ in range(1500 if quick else 10000):
-        cases.append(gen_hist(rng, deep=not quick))
+        cases.append(gen_holders_hist(rng) if rng.random() < 0.2 else gen_hist(rng, deep=not quick))
     for _ in range(300 if quick else 1000):
         cases.append(gen_split(rng, 16 if quick else 32))
     for _ in range(300 if quick else 2000):
